@@ -84,6 +84,16 @@ theorem C07_registered_held_partial (tr : Trace) (endT : Int) (hc : C07_Contract
   obtain ⟨β, t1, hA⟩ := announced_of_registered hwf hc.k1 hc.k2 hc.k7 hsettle hreg
   exact held_of_announced hwf hc.k3 hc.k4 hc.k7 hsettle hA hb hopen hty
 
+/-- **Lookup from Added (partial: the contracts are hypotheses; the resolution itself — `async_request` answering from the
+cache — is C18's and is checked here by the harness oracle only).**  When `Added(b, s)` fires, the browser's host has already
+processed a datagram carrying PTR(`s`) together with SRV, TXT and an address of the target, so the records a lookup needs
+were in one processed datagram (K5: the cache is filled before the callback).  Uses K7 (deliveries are of sent datagrams),
+`K6full` (every positive PTR a host sends is complete) and `K5added` (Added is caused by a processed positive PTR). -/
+theorem C07_lookup_partial (tr : Trace) (endT : Int) (h7 : K7 Cfg.paper tr endT = true) (h6 : K6full tr = true)
+    (h5 : K5added tr = true) (t : Int) (b : Br) (s : Svc) (ha : (⟨t, .added b s⟩ : TEv) ∈ tr) :
+    ∃ e ∈ dlvs tr, e.h = b.host ∧ e.t ≤ t ∧ posFull s e.items = true :=
+  added_complete h7 h6 h5 ha
+
 /-- **One loss kills at most one**: two deliveries that K7 owes and that did not happen are the same delivery -/
 theorem C07_single_loss (tr : Trace) (endT : Int) (h7 : K7 Cfg.paper tr endT = true) (o1 o2 : Obl)
     (h1 : o1 ∈ missing Cfg.paper tr endT) (h2 : o2 ∈ missing Cfg.paper tr endT) : o1 = o2 :=
@@ -135,6 +145,7 @@ def tr : Trace :=
 theorem contracts : C07_Contracts tr 31000 :=
   ⟨by decide, by decide, by decide, by decide, by decide, by decide, by decide, by decide⟩
 
+example : K6full tr = true ∧ K5added tr = true := by decide
 example : (missing Cfg.paper tr 31000).length = 1 := by decide
 example : lastChange tr + C07_settle ≤ 31000 := by decide
 /-- … and the conclusion is the non-trivial one: `s` (registered) is reported, `u` (withdrawn) is not -/
@@ -142,5 +153,32 @@ example : live tr b s = true ∧ registered Cfg.paper tr s = true ∧ live tr b 
   decide
 example : (1000, b) ∈ browses tr ∧ neverClosed tr b.host = true := by decide
 end C07ex
+
+/-! A second run exercises the query path (K3, K4): host 1 comes up at 2 s, after every announcement of `s`, and starts a
+browser; its first (QU) question is answered by unicast, the later QM questions list `s`. -/
+namespace C07ex2
+def s : Svc := ⟨0, 0, 0⟩
+def b : Br := ⟨1, 0, 0⟩
+def ann : List Item := [.ptr s 4500 true]
+def q (k : List Svc) (qu : Bool) : List Item := [.query 0 k qu]
+def tr : Trace :=
+  [⟨0, .up 0⟩, ⟨0, .reg s⟩,
+   ⟨350, .send 0 0 none ann⟩, ⟨350, .dlv 0 0 0 true ann⟩,
+   ⟨575, .send 0 1 none ann⟩, ⟨580, .dlv 1 0 0 true ann⟩,
+   ⟨800, .send 0 2 none ann⟩, ⟨800, .dlv 2 0 0 true ann⟩,
+   ⟨2000, .up 1⟩, ⟨2000, .browse b⟩,
+   ⟨2050, .send 1 3 none (q [] true)⟩, ⟨2050, .dlv 3 1 1 true (q [] true)⟩, ⟨2060, .dlv 3 1 0 true (q [] true)⟩,
+   ⟨2060, .send 0 4 (some 1) ann⟩, ⟨2070, .dlv 4 0 1 false ann⟩, ⟨2070, .added b s⟩,
+   ⟨3050, .send 1 5 none (q [s] false)⟩, ⟨3050, .dlv 5 1 0 true (q [s] false)⟩, ⟨3050, .dlv 5 1 1 true (q [s] false)⟩,
+   ⟨7050, .send 1 6 none (q [s] false)⟩, ⟨7050, .dlv 6 1 0 true (q [s] false)⟩, ⟨7100, .dlv 6 1 1 true (q [s] false)⟩,
+   ⟨16050, .send 1 7 none (q [s] false)⟩, ⟨16050, .dlv 7 1 0 true (q [s] false)⟩, ⟨16050, .dlv 7 1 1 true (q [s] false)⟩]
+
+theorem contracts : C07_Contracts tr 20000 :=
+  ⟨by decide, by decide, by decide, by decide, by decide, by decide, by decide, by decide⟩
+
+example : lastChange tr + C07_settle ≤ 20000 := by decide
+example : upBefore tr b.host (350 + 225) = false := by decide   -- the browser's host missed every announcement
+example : live tr b s = true ∧ registered Cfg.paper tr s = true ∧ K6full tr = true ∧ K5added tr = true := by decide
+end C07ex2
 
 end Zc
